@@ -80,7 +80,15 @@ func c03Alphabet(c c03Cfg) []c03Atom {
 			}
 		}
 	}
-	for _, body := range []string{"", " c ", " " + c.L + " x " + c.R + " ", "\n"} {
+	bodies := []string{"", " c ", " " + c.L + " x " + c.R + " ", "\n"}
+	// bodies that complete a closing marker overlapping the opening one ("{*" + "}b": the "*}" seen across the
+	// boundary is not a closing marker)
+	for k := 1; k < len(c.LC) && k < len(c.RC); k++ {
+		if strings.HasSuffix(c.LC, c.RC[:k]) {
+			bodies = append(bodies, c.RC[k:]+"b")
+		}
+	}
+	for _, body := range bodies {
 		as = append(as, c03Atom{Kind: 'c', S: body})
 	}
 	return as
@@ -258,7 +266,7 @@ func C03(r *core.Run) map[string]interface{} {
 	if r.Thorough() {
 		maxLen = 5
 	}
-	r.Rule = "every sequence of <= N atoms (text letters incl. lone delimiter bytes and all whitespace mixes; actions in 7 trim/spacing variants; 4 comment kinds) under each delimiter configuration, plus header sequences with import clauses; a case counts only if an independent scan finds the markers exactly at the atom boundaries; non-trivial = contains a trim marker or comment; distinct = distinct (config, expected output)"
+	r.Rule = "every sequence of <= N atoms (text letters incl. lone delimiter bytes and all whitespace mixes; actions in 7 trim/spacing variants; 4 comment bodies plus one per overlap of the comment markers) under each delimiter configuration, plus header sequences with import clauses; a case counts only if an independent scan finds the markers exactly at the atom boundaries; non-trivial = contains a trim marker or comment; distinct = distinct (config, expected output)"
 	total := int64(0)
 	for _, c := range cfgs {
 		alpha := c03Alphabet(c)
